@@ -499,7 +499,7 @@ void RouterSession::run() {
                 if (!e4.empty()) { onLibraryException(e4, "recover"); break; }
                 if (!useTransactions) { disarmFaults(pendingEdits > 0); pendingEdits = 0; afterTransaction("recover", true); yield("op"); continue; }
             }
-            if (process(op, o.c_str())) { addedThisTxn.clear(); afterTransaction(o.c_str(), true); }
+            if (process(op, o.c_str())) { addedThisTxn.clear(); addedJunctionsThisTxn.clear(); afterTransaction(o.c_str(), true); }
             yield("op");
             continue;
         } else if (o == "output") {
@@ -521,7 +521,7 @@ void RouterSession::run() {
         if (edited) {
             if (o != "moveShape") zeroMoveOnly = false;
             edit();
-            if (!useTransactions) { disarmFaults(true); pendingEdits = 0; addedThisTxn.clear(); afterTransaction(o.c_str(), true); }
+            if (!useTransactions) { disarmFaults(true); pendingEdits = 0; addedThisTxn.clear(); addedJunctionsThisTxn.clear(); afterTransaction(o.c_str(), true); }
         }
         yield("op");
     }
